@@ -326,7 +326,8 @@ def check_value_orders(ctx, stats):
     if len(prog["defs"]) < 2:
         return
     base = None
-    for k in range(3):
+    broken = False
+    for k in range(3 if not broken else 5):
         order = list(range(len(prog["defs"])))
         if k:
             ctx.rng.shuffle(order)
@@ -336,9 +337,9 @@ def check_value_orders(ctx, stats):
         mod = [r["model"] for r in res]
         stats["evaluations"] += len(impl)
         stats["value_orders"] += 1
-        if impl != mod:
+        if impl != mod and not broken:
             ctx.violation(f"value-typed program under order {order}: implementation {impl} != model {mod}", dict(p, order=order), kind="correspondence")
-            return
+            broken = True           # the tie is broken: the orders are still compared with one another on the implementation
         if base is None:
             base = impl
         elif impl != base:
@@ -346,11 +347,47 @@ def check_value_orders(ctx, stats):
             return
 
 
+def exhaustive_irrelevance_small(ctx, stats):
+    """complete enumeration over three small multiple-inheritance hierarchies (C02's): every pair of one-argument methods,
+    every instantiable argument class, and for every class X the function extended with a two-argument method on X
+    (never applicable to a one-argument call).  An outcome that changes is KF-01 where the model of the unchanged code
+    predicts the same change, a violation otherwise."""
+    import itertools
+    from .c02 import SMALL_WORLDS
+    from ..world import World
+    for spec in SMALL_WORLDS:
+        w = World(spec)
+        classes = [0] + w.user_ids()
+        inst = [c for c in classes if w.instantiable(c)]
+        calls = [{"pos": [c], "kw": {}} for c in inst]
+        for combo in itertools.combinations(classes, 2):
+            defs = [{"id": i, "pos": [[0, c]], "npos_req": 1, "kw": [], "prio": 0} for i, c in enumerate(combo)]
+            res0, _, _ = R.eval_program({"spec": spec, "defs": defs, "calls": calls})
+            for x in classes:
+                ext = defs + [{"id": 9, "pos": [[0, x], [0, 2]], "npos_req": 2, "kw": [], "prio": 0}]
+                res1, _, _ = R.eval_program({"spec": spec, "defs": ext, "calls": calls})
+                stats["evaluations"] += len(calls)
+                stats["small_scope_irrelevance_programs"] += 1
+                for call, r0, r1 in zip(calls, res0, res1):
+                    case = {"spec": spec, "defs": ext, "calls": [call], "without": 9}
+                    if r0["impl"] != r0["model"] or r1["impl"] != r1["model"]:
+                        ctx.violation(f"small scope: implementation {r0['impl']} / {r1['impl']} != model {r0['model']} / {r1['model']}", case, kind="correspondence")
+                    if r0["impl"] != r1["impl"]:
+                        if r0["model"] != r1["model"] and r1["impl"] == r1["model"] and r0["impl"] == r0["model"]:
+                            ctx.known_hit("KF-01", case)
+                            stats["irrelevant_dependent"] += 1
+                        else:
+                            ctx.violation(f"a two-argument method on class {x}, not applicable to the one-argument call, changes its outcome: {r0['impl']} -> {r1['impl']}"
+                                          f" (the unchanged code's model: {r0['model']} -> {r1['model']})", case)
+                            return
+
+
 def run(ctx):
     stats = collections.Counter()
     samples = []
     distinct = set()
     check_metaclass_irrelevance(ctx, stats)
+    exhaustive_irrelevance_small(ctx, stats)
     n = 40 if ctx.quick() else 1500
     for i in range(n):
         prog = gen_prog(ctx.rng)
@@ -366,13 +403,27 @@ def run(ctx):
     return {"evaluations": stats["evaluations"], "distinct_nontrivial": len(distinct),
             "rule": "random programs with >= 2 methods of distinct signatures over 1-3 positions (35% with Union / Intersection annotations in either member order); each run under 3-6 imposed registration/iteration orders (guarded hook; model run with the same order), extended with 1-3 non-applicable methods, and (every 4th / 10th program) in 3 fresh interpreters with different PYTHONHASHSEED and address layout, hook off; distinct by content",
             "samples": samples, "programs": stats["programs"], "imposed_orders": stats["orders"], "value_typed_program_orders": stats["value_orders"],
-            "subprocess_runs": stats["subprocess_runs"], "order_dependent_known": stats["order_dependent"],
+            "subprocess_runs": stats["subprocess_runs"], "small_scope_irrelevance_programs_enumerated_completely": stats["small_scope_irrelevance_programs"], "order_dependent_known": stats["order_dependent"],
             "irrelevant_method_dependent_known": stats["irrelevant_dependent"], "seed_dependent_known": stats["seed_dependent"],
             "traces_validated_against_impl": stats["evaluations"]}
 
 
 def replay(ctx, payload):
     prog = payload["case"]
+    if "without" in prog:      # irrelevance: the recorded function with and without the method named there
+        small = dict(prog, defs=[d for d in prog["defs"] if d["id"] != prog["without"]])
+        r1, _, _ = R.eval_program(prog)
+        r0, _, _ = R.eval_program(small)
+        print(json.dumps({"with": r1[0]["impl"], "without": r0[0]["impl"], "model_with": r1[0]["model"], "model_without": r0[0]["model"]}))
+        return r0[0]["impl"] != r1[0]["impl"] or r0[0]["impl"] != r0[0]["model"] or r1[0]["impl"] != r1[0]["model"]
+    if "utab" in prog:         # value-typed program under two orders
+        from . import dep_common as D
+        order = prog.get("order", list(range(len(prog["defs"]))))
+        ra, _, _ = D.eval_dep_program(prog)
+        rb, _, _ = D.eval_dep_program(dict(prog, defs=[prog["defs"][i] for i in order]))
+        a, b = [r["impl"] for r in ra], [r["impl"] for r in rb]
+        print(json.dumps({"base": a, "other": b}))
+        return a != b or a != [r["model"] for r in ra] or b != [r["model"] for r in rb]
     order = prog.get("order", list(range(len(prog["defs"]))))
     a, ma = run_order(prog, list(range(len(prog["defs"]))))
     b, mb = run_order(prog, order)
